@@ -73,8 +73,24 @@ def describe_event(ev):
     return 'model marker %s' % (p[:3],)
 
 
+MARKERS = {3: 'the recorded answers ran out: the resumption asks more than the implementation did',
+           5: 'recorded answers left over: the resumption asks less than the implementation did',
+           -2: 'the walk ran out of fuel', -4: 'the case does not decode'}
+
+
+def marker_of(model):
+    """The runner's marker in a model result (Model/FlexAlgRun.v: 3 / 5 n / -2 / -4 where an event tag 0 / 1 / 2 is expected), or None."""
+    for e in events(model):
+        if e[0] == 'X':
+            return e[2][0] if e[2] else -4
+    return None if model else -4
+
+
 def compare(impl, model):
-    """-> (structural_ok, exact_ok, message)"""
+    """-> (structural_ok, exact_ok, message).  A marker of the runner is never a match: it is a STRUCTURAL disagreement."""
+    mk = marker_of(model)
+    if mk is not None:
+        return False, False, 'the runner printed the marker %s (%s); model result %s...' % (mk, MARKERS.get(mk, 'not an event'), model[:6])
     a, b = events(impl), events(model)
     sa, sb = [skeleton(e) for e in a], [skeleton(e) for e in b]
     if sa != sb:
@@ -152,8 +168,12 @@ def flexalg_k(rep, pid, binp, seed, n, timeout=600, payload_is_broken=True):
     distinct = set()
     reported = 0
     npay_logged = 0
+    nmark = {}
     for c, a, b in zip(cases, impl, model):
         s_ok, e_ok, msg = compare(a, b)
+        mk = marker_of(b)
+        if mk is not None:
+            nmark[str(mk)] = nmark.get(str(mk), 0) + 1
         nstruct += s_ok
         nexact += e_ok
         for f in case_features(c, a):
@@ -169,7 +189,7 @@ def flexalg_k(rep, pid, binp, seed, n, timeout=600, payload_is_broken=True):
             log('[%s] flex resumption K: payload-only disagreement (reported by ./check C07): %s' % (pid, msg[:300]))
     rep.cov['evaluations'] = rep.cov.get('evaluations', 0) + len(cases)
     res = {'cases': len(cases), 'skipped_panics': int(done.group(2)), 'structure_agrees': nstruct, 'bit_exact': nexact,
-           'payload_only_disagreements': nstruct - nexact, 'payload_disagreement_fails_this_check': payload_is_broken,
+           'runner_markers': nmark, 'payload_only_disagreements': nstruct - nexact, 'payload_disagreement_fails_this_check': payload_is_broken,
            'compute_size_cases': int(done.group(4)), 'compute_size_cases_with_a_PerformLayout_query': int(done.group(5)),
            'features': feats, 'distinct_with_child_traffic': len(distinct)}
     rep.cov['flexalg_k'] = res
